@@ -19,12 +19,28 @@ if TYPE_CHECKING:
 logger = logging.getLogger(__name__)
 
 
+def _apply_capacity_faults(resource, state) -> None:
+    """Set the capacity implied by the reductions whose windows are open.
+
+    Windows on one resource may overlap or nest: every open window multiplies
+    the configured capacity by its factor, and the configured capacity is
+    back (exactly) once the last window has closed.
+    """
+    capacity = state["configured"]
+    for factor in state["factors"].values():
+        capacity = capacity * factor
+    resource.set_capacity(capacity)
+
+
 @dataclass(frozen=True)
 class ReduceCapacity:
     """Temporarily reduce a resource's capacity.
 
     At ``start``, multiplies the resource's capacity by ``factor``
-    (e.g., 0.5 = halve). At ``end``, restores the original capacity.
+    (e.g., 0.5 = halve). At ``end``, undoes this fault's reduction; the
+    configured capacity is back once no reduction window is open any more.
+    Capacity already granted is not revoked: it leaves ``available`` as the
+    grants are released.
 
     Attributes:
         resource_name: Name of the resource to degrade.
@@ -42,32 +58,34 @@ class ReduceCapacity:
         resource = ctx.resources[self.resource_name]
         resource_name = self.resource_name
         factor = self.factor
-        original_capacity = resource._capacity
+        token = object()  # identifies this fault's window among the resource's active reductions
 
         def activate(e: Event) -> None:
-            new_capacity = original_capacity * factor
-            resource._capacity - new_capacity
-            resource._capacity = new_capacity
-            # Clamp available to not exceed new capacity
-            if resource._available > new_capacity:
-                resource._available = new_capacity
+            state = getattr(resource, "_capacity_faults", None)
+            if state is None:
+                state = resource._capacity_faults = {"configured": resource.capacity, "factors": {}}
+            state["factors"][token] = factor
+            _apply_capacity_faults(resource, state)
             logger.info(
                 "[FaultInjection] Reduced '%s' capacity to %.1f (factor=%.2f) at %s",
                 resource_name,
-                new_capacity,
+                resource.capacity,
                 factor,
                 e.time,
             )
 
         def deactivate(e: Event) -> None:
-            capacity_increase = original_capacity - resource._capacity
-            resource._capacity = original_capacity
-            # Restore available by the same amount capacity increased
-            resource._available += capacity_increase
+            state = getattr(resource, "_capacity_faults", None)
+            if state is None or token not in state["factors"]:
+                return
+            del state["factors"][token]
+            _apply_capacity_faults(resource, state)
+            if not state["factors"]:
+                resource._capacity_faults = None
             logger.info(
                 "[FaultInjection] Restored '%s' capacity to %.1f at %s",
                 resource_name,
-                original_capacity,
+                resource.capacity,
                 e.time,
             )
 
